@@ -94,6 +94,8 @@ def assign(frame, ps, ts):
         c.pressure = p
     for be, t in zip(frame.big_edges.values(), ts):
         be.tension = t
+        # reference ("ground truth") tensions are another quantity: they must not enter the tensor
+        be.gt = 0.7 + 0.01 * (int(be.big_edge_id) % 13)
 
 
 def run_real(frame, grid, radius):
